@@ -109,8 +109,11 @@ Definition lastz (p : spc_t) : bool :=
   | _ => false
   end.
 Definition rtaker (p : rpc_t) : bool := match p with TLock _ | CLock _ => true | _ => false end.
+Definition rtakz (p : rpc_t) : bool := match p with TLock _ | CLock _ | TNone _ => true | _ => false end.
+Definition rcl (p : rpc_t) : bool :=
+  match p with CStore false | CCas1 false | CCas2 false | CLock false | CUnlock false => true | _ => false end.
 Definition rfin (p : rpc_t) : bool :=
-  match p with CCas1 true | CCas2 true | CLock true | CUnlock true | RArc | RShLoad | RDone => true | _ => false end.
+  match p with CStore true | CCas1 true | CCas2 true | CLock true | CUnlock true | RArc | RShLoad | RDone => true | _ => false end.
 Definition ropen (p : rpc_t) : bool :=
   match p with
   | TLoad _ | TCas _ | TLock _ | TNone _ | TUnlock _ _ | TFLoad _ | TFCnt _ | TCnt _ | TClose _
@@ -212,7 +215,7 @@ Ltac sstep_cases H :=
   unfold sstep in H;
   match type of H with context [spc ?s ?t] =>
     let y := fresh "v" in remember (spc s t) as y eqn:Epc in H; symmetry in Epc; destruct y end;
-  unfold do_srd, do_fsub, sret, s_fail, dec_done, after_wake, sh_drop in H;
+  unfold do_srd, do_fsub, sret, after_wake, s_fail, dec_done, sh_drop in H;
   finish_step H.
 
 Ltac split_thr u t :=
@@ -237,7 +240,7 @@ Ltac norm :=
          end.
 
 Ltac pcsimpl :=
-  cbn [ropen rfin rtaker rrel pre_fsub writer srel prewrite okzone lastz code b2n negb andb orb] in *.
+  cbn [ropen rfin rtaker rtakz rcl rrel pre_fsub writer srel prewrite okzone lastz code b2n negb andb orb] in *.
 
 Ltac spec_refl :=
   repeat match goal with
